@@ -76,6 +76,10 @@ def rand_model(rng, depth):
     return m
 
 
+def depth(m):
+    return 1 + max([depth(f["type"]) for f in m["fields"] if isinstance(f.get("type"), dict)] or [0])
+
+
 def rand_instance(rng, m):
     inst = {}
     for f in m["fields"]:
@@ -267,4 +271,44 @@ def gen_object(rng, tier):
         yield {"model": m, "inst": rand_instance(rng, m), "ns_map": [list(x) for x in rng.choice(OBJ_MAPS)]}
 
 
-ORACLE = Oracle("c03.object", gen_object, check_object, covered=covered_object)
+ORACLE = Oracle("c03.object", gen_object, check_object, covered=covered_object, from_ops=("ser.object",))
+
+# ------------------------------------------------------------------ correspondence op `ser.object`
+SAFE_OBJ_MAPS = [[], [], [["p", "urn:m1"], ["q", "urn:f1"]], [["unused", "urn:zzz"]], [["x", S.XSI]]]
+
+
+def gen_ser_object(rng, tier):
+    n = 600 if tier == "quick" else 8000
+    for _ in range(n):
+        m = rand_model(rng, rng.choice([0, 1, 1, 2, 2]))
+        yield {"model": m, "inst": rand_instance(rng, m), "ns_map": [list(x) for x in rng.choice(SAFE_OBJ_MAPS)]}
+
+
+def _plain(node):
+    if node is None or node[0] == "t":
+        return node
+    return ["e", node[1], node[2], sorted([list(a) for a in node[3]], key=lambda x: (x[0] or "", x[1])), [_plain(k) for k in node[4]]]
+
+
+def impl_ser_object(a):
+    """the real serializer (both writers) on the dataclasses built from the description"""
+    m = strip_private(a["model"])
+    build_class(m)
+    obj = build_object(m, a["inst"])
+    trees = []
+    for wname, w in O.WRITERS.items():
+        ser = XmlSerializer(context=XmlContext(), config=SerializerConfig(xml_declaration=False), writer=w)
+        try:
+            text = ser.render(obj, S.user_dict(a["ns_map"]) if a["ns_map"] else None)
+        except Exception as e:  # noqa: BLE001
+            return {"err": "%s:%s" % (wname, type(e).__name__)}
+        trees.append(_plain(S.parse_infoset(text)))
+    if trees[0] != trees[1]:
+        return {"err": "writers-disagree"}
+    return {"ok": trees[0]}
+
+
+def canon_ser_object(o):
+    if isinstance(o, dict) and "ok" in o:
+        return {"ok": _plain(o["ok"])}
+    return o
